@@ -69,10 +69,12 @@ theorem nnList_map_snd {cs : List (Key × Node)} (h : nnList cs = true) : ∀ v,
 
 theorem nnF_fresh : nnF freshFlags = true := by decide
 
-theorem newPlainList_nn {vals : List Node} (h : ∀ v, v ∈ vals → NN v = true) : NN (newPlainList vals) = true := by
+theorem newPlainList_nn (f : Flags) {vals : List Node} (h : ∀ v, v ∈ vals → NN v = true) :
+    NN (newPlainList f vals) = true := by
   simp only [newPlainList]
+  apply propagate_nn
   rw [NN_comp]
-  refine ⟨nnF_fresh, ?_⟩
+  refine ⟨nnF_replaceOtherFlags _ nnF_fresh, ?_⟩
   rw [nnList_iff]
   intro kv hm
   have hm2 := c19_mem_renumFrom hm
@@ -215,7 +217,7 @@ theorem premergeF_nn : ∀ (fuel : Nat), PMNN (premergeF fuel)
         split at h
         · simp only [Except.ok.injEq, Prod.mk.injEq] at h
           obtain ⟨rfl, rfl, rfl⟩ := h
-          exact ⟨newPlainList_nn hvals, intoNN_none⟩
+          exact ⟨newPlainList_nn _ hvals, intoNN_none⟩
         · rename_i root
           split at h
           · cases h
@@ -233,7 +235,7 @@ theorem premergeF_nn : ∀ (fuel : Nat), PMNN (premergeF fuel)
         split at h
         · simp only [Except.ok.injEq, Prod.mk.injEq] at h
           obtain ⟨rfl, rfl, rfl⟩ := h
-          exact ⟨newPlainList_nn hvals, intoNN_none⟩
+          exact ⟨newPlainList_nn _ hvals, intoNN_none⟩
         · rename_i root
           split at h
           · rename_i tf tk tcs hg
@@ -248,10 +250,10 @@ theorem premergeF_nn : ∀ (fuel : Nat), PMNN (premergeF fuel)
                 exact ⟨(NN_comp _ _ _).2 ⟨ht.1, extendList_nn tk ht.1 _ tcs hvals ht.2⟩, intoNN_some hrm.2⟩
             · simp only [Except.ok.injEq, Prod.mk.injEq] at h
               obtain ⟨rfl, rfl, rfl⟩ := h
-              exact ⟨newPlainList_nn hvals, hi⟩
+              exact ⟨newPlainList_nn _ hvals, hi⟩
           · simp only [Except.ok.injEq, Prod.mk.injEq] at h
             obtain ⟨rfl, rfl, rfl⟩ := h
-            exact ⟨newPlainList_nn hvals, hi⟩
+            exact ⟨newPlainList_nn _ hvals, hi⟩
       | stream =>
         simp only [premergeF] at h
         split at h
@@ -337,8 +339,8 @@ theorem removeNode_eraseSN : ∀ (p : Path) (root : Node), FlagsConsistent root 
 
 theorem eraseF_fresh : eraseF freshFlags = freshFlags := by decide
 
-theorem newPlainList_eraseSN : ∀ {vals : List Node}, (∀ v, v ∈ vals → FlagsConsistent v = true) →
-    newPlainList (vals.map eraseSN) = eraseSN (newPlainList vals) := by
+theorem newPlainList_eraseSN (f : Flags) : ∀ {vals : List Node}, (∀ v, v ∈ vals → FlagsConsistent v = true) →
+    newPlainList (eraseF f) (vals.map eraseSN) = eraseSN (newPlainList f vals) := by
   intro vals h
   have hm : ∀ (vals : List Node), (∀ v, v ∈ vals → FlagsConsistent v = true) →
       (vals.map eraseSN).map (inheritInto none (childKw freshFlags .list)) =
@@ -351,7 +353,18 @@ theorem newPlainList_eraseSN : ∀ {vals : List Node}, (∀ v, v ∈ vals → Fl
       have e := inheritInto_eraseSN none (childKw freshFlags .list) (h v (by simp))
       rw [← childKw_eraseF', eraseF_fresh] at e
       simp only [List.map_cons, e, ih (fun w hw => h w (List.mem_cons_of_mem _ hw))]
-  simp only [newPlainList, eraseSN, renum, eraseSNList_renumFrom, eraseF_fresh, hm vals h]
+  have hbelow : ConsistentBelow (.comp (replaceOtherFlags freshFlags f) .list
+      (renum (vals.map (inheritInto none (childKw freshFlags .list))))) = true := by
+    simp only [ConsistentBelow, allConsistent]
+    rw [consistentList_iff]
+    intro kv hmem
+    have hm2 := c19_mem_renumFrom hmem
+    obtain ⟨x, hx, e⟩ := List.mem_map.1 hm2
+    rw [← e]
+    exact ⟨fun kw' e' => (by cases e'), (inheritInto_cons none (childKw freshFlags .list) (h x hx)).1⟩
+  simp only [newPlainList]
+  rw [propagate_eraseSN hbelow]
+  simp only [eraseSN, renum, eraseSNList_renumFrom, eraseF_replaceOtherFlags, eraseF_fresh, hm vals h]
 
 theorem extendList_eraseSN (f : Flags) (k : CompKind) : ∀ (vals : List Node) (cs : List (Key × Node)),
     (∀ v, v ∈ vals → FlagsConsistent v = true) →
@@ -517,7 +530,7 @@ theorem premergeF_eraseSN : ∀ (fuel : Nat), PMErase (premergeF fuel)
       have hnn' := (NN_comp f k cs).1 hnn
       have hvals : ∀ v, v ∈ cs.map (·.2) → FlagsConsistent v = true := allConsistent_map_snd hcs
       have hnvals : ∀ v, v ∈ cs.map (·.2) → NN v = true := nnList_map_snd hnn'.2
-      have hnew := newPlainList_eraseSN hvals
+      have hnew := newPlainList_eraseSN f hvals
       cases k with
       | append =>
         simp only [eraseSN, premergeF, map_snd_map_eraseSN, hnew]
